@@ -302,6 +302,9 @@ func (l *ledger) installTracer() {
 				l.violate("promote", "promoted-before-caught-up", fmt.Sprintf("leader %d (term %d) promotes node %d with matchIndex %d; completed round: %v (lastIndex %d); current %v", n.id, r.term, id, st.matchIndex, ok, done, st.round))
 			}
 		}
+		// a completed round counts for the promotion it was run for: once the node is promoted (or demoted /
+		// removed again) a later promotion needs a round of its own
+		delete(l.roundDone, [3]uint64{n.id, r.term, id})
 	}
 	tracer.roundCompleted = func(r *Raft, id uint64, rd round) {
 		if n := simLookup(r); n != nil && n.w == l.w {
@@ -1208,6 +1211,22 @@ func (l *ledger) digest() string {
 	})
 	for _, k := range vk {
 		fmt.Fprintf(&sb, "V%d.%d=%d;", k[0], k[1], l.votes[k])
+	}
+	// completed catch-up rounds not yet used by a promotion
+	rk := make([][3]uint64, 0, len(l.roundDone))
+	for k := range l.roundDone {
+		rk = append(rk, k)
+	}
+	sort.Slice(rk, func(a, b int) bool {
+		for x := 0; x < 3; x++ {
+			if rk[a][x] != rk[b][x] {
+				return rk[a][x] < rk[b][x]
+			}
+		}
+		return false
+	})
+	for _, k := range rk {
+		fmt.Fprintf(&sb, "RD%d.%d.%d=%d;", k[0], k[1], k[2], l.roundDone[k])
 	}
 	return sb.String()
 }
